@@ -4,7 +4,15 @@
 //!   hist rd|ix <frames> <gzi> <ops>   a history of reader calls over a file assembled from the
 //!                                     frame specs; obs = per op `<result>@<virtual position>`
 //!   vp   c1 u1 c2 u2                  VirtualPosition::try_from, compressed/uncompressed, Ord
-//!   gzi  <entries> <pos>              gzi::Index::query
+//!   gzi  <entries> <pos>              gzi::Index::query (sorted AND hostile indexes; model =
+//!                                     GziBs.gzi_query_bs, the exact binary search of core::slice)
+//!   pp   <bits>                       slice::partition_point on a boolean slice (`_` = empty)
+//!   hidx rd|ix <frames> <gzi> <ops>   as hist, over a HOSTILE gzi index of the file (model run_bs;
+//!                                     the verdict only demands the absence of panics)
+//!   hseek <frames|_> <filehex> <ops> <c>:<u>   a valid history, then ONE seek to an arbitrary
+//!                                     virtual position; obs = `<seek result>@<position told>`;
+//!                                     model = NV.Bgzf.SeekBytes.hseek_run (byte-level seek with
+//!                                     C01's frame parser, CRC-32 and inflater)
 //!   wtm  <level> <finish> <ops> <n> <tbl>  writer history as in wtell; obs = per told position
 //!                                     `<c>:<u>=<seek result>><bytes read to the end with an n-byte
 //!                                     buffer by a fresh Reader sought there>`, compared with
@@ -988,16 +996,132 @@ fn run_gzi(c: &Case) -> Obs {
         Outcome::Done(Err(e)) => format!("Err:{}", errkind(&e)),
         Outcome::Panicked(_) => "Panic".into(),
     };
-    // oracle: the last entry at or before p (or the file start), offset relative to it
-    let i = index.iter().rposition(|e| e.1 <= p);
-    let (bc, bu) = i.map_or((0, 0), |i| index[i]);
-    let exp = if p - bu >= 65536 || bc >= (1 << 48) {
-        "Err:InvalidData".to_string()
+    let sorted = index.windows(2).all(|w| w[0].1 <= w[1].1);
+    let verdict = if sorted {
+        // oracle: the last entry at or before p (or the file start), offset relative to it
+        let i = index.iter().rposition(|e| e.1 <= p);
+        let (bc, bu) = i.map_or((0, 0), |i| index[i]);
+        let exp = if p - bu >= 65536 || bc >= (1 << 48) {
+            "Err:InvalidData".to_string()
+        } else {
+            format!("{}:{}", bc, p - bu)
+        };
+        if obs == exp { Ok(()) } else { Err(("gzi-query".to_string(), format!("pos={p} got={obs} expected={exp}"))) }
     } else {
-        format!("{}:{}", bc, p - bu)
+        // hostile (unsorted) index: nothing is promised about WHICH entry is selected, but the
+        // query must not panic, and an Ok answer is relative to some entry at or before p
+        match guarded(AssertUnwindSafe(|| gz.query(p))) {
+            Outcome::Panicked(m) => Err(("gzi-query-hostile-index-panic".to_string(), format!("pos={p} {m}"))),
+            Outcome::Done(Err(_)) => Ok(()),
+            Outcome::Done(Ok(v)) => {
+                let (c0, d) = (v.compressed(), u64::from(v.uncompressed()));
+                let fits = |e: &(u64, u64)| e.0 == c0 && e.1 <= p && p - e.1 == d;
+                if index.iter().any(fits) || fits(&(0, 0)) {
+                    Ok(())
+                } else {
+                    Err(("gzi-query-hostile-index-foreign-entry".to_string(), format!("pos={p} got={obs}")))
+                }
+            }
+        }
     };
-    let verdict = if obs == exp { Ok(()) } else { Err(("gzi-query".to_string(), format!("pos={p} got={obs} expected={exp}"))) };
     Obs::ok(obs, !index.is_empty()).with_verdict(verdict)
+}
+
+/// `slice::partition_point` itself (what Index::query calls) on an arbitrary boolean slice
+fn run_pp(c: &Case) -> Obs {
+    let v: Vec<bool> = if c.args[0] == "_" { vec![] } else { c.args[0].bytes().map(|b| b == b'1').collect() };
+    let obs = match guarded(AssertUnwindSafe(|| v.partition_point(|&b| b))) {
+        Outcome::Done(i) => i.to_string(),
+        Outcome::Panicked(_) => "Panic".into(),
+    };
+    // oracle: a valid index, and the prefix length on partitioned slices
+    let i: usize = obs.parse().unwrap_or(usize::MAX);
+    let k = v.iter().take_while(|&&b| b).count();
+    let partitioned = v[k..].iter().all(|&b| !b);
+    let verdict = if i > v.len() {
+        Err(("partition-point-out-of-range".to_string(), obs.clone()))
+    } else if partitioned && i != k {
+        Err(("partition-point-on-partitioned-slice".to_string(), format!("got={i} expected={k}")))
+    } else {
+        Ok(())
+    };
+    Obs::ok(obs, v.len() > 1).with_verdict(verdict)
+}
+
+/// A history over a HOSTILE gzi index (unsorted, duplicated, shifted, foreign entries): the
+/// observations are compared with the model (run_bs: exact binary search + clamping seek); the
+/// property promises nothing here except the absence of panics.
+fn run_hidx(c: &Case) -> Obs {
+    let kind = c.args[0].as_str();
+    let fs = parse_frames(&c.args[1]);
+    let index = parse_index(&c.args[2]);
+    let ops = parse_ops(&c.args[3]);
+    let l = assemble(&fs);
+    let gz = gzi::Index::from(index.clone());
+    let mut r = make_reader(kind, &l.bytes, &index);
+    let mut obs: Vec<String> = Vec::new();
+    let mut verdict = Ok(());
+    for (j, &op) in ops.iter().enumerate() {
+        let got = apply(r.as_mut(), op, &gz);
+        let vp = vpos_of(r.as_ref());
+        obs.push(format!(
+            "{}@{}",
+            got.canon(),
+            vp.map_or("Panic".to_string(), |v| format!("{}:{}", v.compressed(), v.uncompressed()))
+        ));
+        if got == Got::Panic || vp.is_none() {
+            verdict = Err(("hostile-gzi-index-panic".to_string(), format!("op#{j} {op:?}")));
+            break;
+        }
+    }
+    let o = if obs.is_empty() { "_".to_string() } else { obs.join(" ") };
+    Obs::ok(o, !index.is_empty() && ops.len() >= 2).with_verdict(verdict)
+}
+
+/// One seek to an ARBITRARY virtual position (block offset anywhere in or beyond the bytes of the
+/// file, any in-block offset) after a valid history: obs = `<seek result>@<position told after>`,
+/// compared with NV.Bgzf.SeekBytes.hseek_run (frame-level model for the history, then the
+/// byte-level seek with C01's frame parser, CRC and inflater).
+fn run_hseek(c: &Case) -> Obs {
+    let fs = parse_frames(&c.args[0]);
+    let bytes = nv::unhex(&c.args[1]);
+    let ops = parse_ops(&c.args[2]);
+    let (tc, tu) = c.args[3].split_once(':').unwrap();
+    let (tc, tu): (u64, u16) = (tc.parse().unwrap(), tu.parse().unwrap());
+    let l = if fs.is_empty() { None } else { Some(assemble(&fs)) };
+    if let Some(l) = &l {
+        assert_eq!(l.bytes, bytes, "hseek: the bytes are not the file of the frame specs");
+    }
+    let gz = gzi::Index::from(l.as_ref().map_or(vec![], |l| l.full_index()));
+    let mut r = make_reader("rd", &bytes, &[]);
+    for &op in &ops {
+        let _ = apply(r.as_mut(), op, &gz);
+    }
+    let got = apply(r.as_mut(), Op::Seek(tc, tu), &gz);
+    let vp = vpos_of(r.as_ref());
+    let obs = format!(
+        "{}@{}",
+        got.canon(),
+        vp.map_or("Panic".to_string(), |v| format!("{}:{}", v.compressed(), v.uncompressed()))
+    );
+    // the property side: never a panic; on a well-formed file a position that denotes a byte is
+    // accepted and told back (modulo the end-of-block convention), a block offset at a frame
+    // boundary or at/after the end of the file is accepted whatever the in-block offset is
+    let mut verdict = Ok(());
+    if got == Got::Panic || vp.is_none() {
+        verdict = Err(("hostile-seek-panic".to_string(), format!("seek({tc}:{tu}) {obs}")));
+    } else if let Some(l) = &l {
+        let boundary = l.tbl.iter().any(|t| t.0 == tc) || tc >= l.file_len;
+        if boundary && !matches!(got, Got::Pos(_)) {
+            verdict = Err(("seek-to-frame-boundary-rejected".to_string(), format!("seek({tc}:{tu}) {obs}")));
+        }
+        if let (Some(o), Some(v)) = (l.denote(tc, tu), vp) {
+            if l.denote(v.compressed(), v.uncompressed()) != Some(o) {
+                verdict = Err(("seek-to-denoting-position-tells-another".to_string(), format!("seek({tc}:{tu}) {obs}")));
+            }
+        }
+    }
+    Obs::ok(obs, bytes.len() > 28).with_verdict(verdict)
 }
 
 fn run(c: &Case) -> Obs {
@@ -1006,6 +1130,9 @@ fn run(c: &Case) -> Obs {
         "wtell" | "wtm" => run_wtell(c),
         "vp" => run_vp(c),
         "gzi" => run_gzi(c),
+        "pp" => run_pp(c),
+        "hidx" => run_hidx(c),
+        "hseek" => run_hseek(c),
         k => Obs::fail("-", "harness-unknown-kind", k),
     }
 }
@@ -1448,6 +1575,238 @@ fn generate(rng: &mut Rng, tier: &str, w: &mut CaseWriter) {
         };
         w.push("gzi", vec![fmt_index(&ix), p.to_string()]);
     }
+    // ---- gzi queries on HOSTILE indexes: unsorted, duplicated, reversed, rotated, huge values
+    let n_hg = if thorough { 12_000 } else { 500 };
+    for _ in 0..n_hg {
+        let ix = gen_hostile_index(rng);
+        let k = ix.len();
+        let p = match rng.below(6) {
+            0 => ix.get(rng.below(k.max(1) as u64) as usize).map_or(0, |e| e.1),
+            1 => ix.get(rng.below(k.max(1) as u64) as usize).map_or(1, |e| e.1.saturating_add(1)),
+            2 => ix.get(rng.below(k.max(1) as u64) as usize).map_or(0, |e| e.1.saturating_sub(1)),
+            3 => ix.iter().map(|e| e.1).max().unwrap_or(0).saturating_add(*rng.pick(&[0u64, 1, 65535, 65536])),
+            4 => *rng.pick(&[0u64, 1, u64::MAX, u64::MAX - 1, 1 << 63]),
+            _ => rng.below(ix.iter().map(|e| e.1).max().unwrap_or(0).saturating_add(70000).max(1)),
+        };
+        w.push("gzi", vec![fmt_index(&ix), p.to_string()]);
+    }
+    // ---- slice::partition_point on every boolean slice up to a length (exhaustive), then random
+    let max_len = if thorough { 14 } else { 10 };
+    w.push("pp", vec!["_".into()]);
+    for len in 1..=max_len {
+        for bits in 0u32..(1 << len) {
+            let s: String = (0..len).map(|i| if bits >> i & 1 == 1 { '1' } else { '0' }).collect();
+            w.push("pp", vec![s]);
+        }
+    }
+    for _ in 0..(if thorough { 4000 } else { 200 }) {
+        let len = rng.range(max_len as u64 + 1, 300) as usize;
+        let cut = rng.below(len as u64 + 1) as usize;
+        let noise = rng.below(4);
+        let s: String = (0..len)
+            .map(|i| {
+                let b = i < cut;
+                if noise > 0 && rng.chance(noise, 12) { if b { '0' } else { '1' } } else if b { '1' } else { '0' }
+            })
+            .collect();
+        w.push("pp", vec![s]);
+    }
+    // ---- histories over hostile indexes of real files (entries permuted / duplicated / dropped /
+    //      shifted in their uncompressed offset / pointing beyond the end of the file)
+    let n_hidx = if thorough { 2500 } else { 120 };
+    for i in 0..n_hidx {
+        let mut fs = gen_layout(rng);
+        // keep these files small: the point is the index, not the data
+        fs.retain(|f| f.len <= 3000);
+        let l = assemble(&fs);
+        let mut ix = l.full_index();
+        if ix.is_empty() {
+            ix.push((l.file_len, l.d.len() as u64));
+        }
+        for _ in 0..rng.range(1, 4) {
+            let k = ix.len();
+            match rng.below(7) {
+                0 => ix.reverse(),
+                1 => {
+                    let (a, b) = (rng.below(k as u64) as usize, rng.below(k as u64) as usize);
+                    ix.swap(a, b);
+                }
+                2 => {
+                    let e = ix[rng.below(k as u64) as usize];
+                    ix.insert(rng.below(k as u64 + 1) as usize, e);
+                }
+                3 => {
+                    let j = rng.below(k as u64) as usize;
+                    let d = rng.range(1, 70000);
+                    ix[j].1 = if rng.chance(1, 2) { ix[j].1.saturating_sub(d) } else { ix[j].1 + d };
+                }
+                4 => {
+                    // an entry beyond the end of the file / a block offset that does not fit 48 bits
+                    let c = if rng.chance(1, 3) { (1 << 48) + rng.below(9) } else { l.file_len + rng.below(100) };
+                    ix.insert(rng.below(k as u64 + 1) as usize, (c, rng.below(l.d.len() as u64 + 2)));
+                }
+                5 if k > 1 => {
+                    ix.remove(rng.below(k as u64) as usize);
+                }
+                _ => ix.rotate_left(1),
+            }
+        }
+        let kind = if i % 3 == 2 { "ix" } else { "rd" };
+        let nops = rng.range(2, 14) as usize;
+        let mut ops = Vec::new();
+        for _ in 0..nops {
+            let total = l.d.len() as u64;
+            ops.push(match rng.below(9) {
+                0..=3 => Op::SeekU(match rng.below(4) {
+                    0 => ix[rng.below(ix.len() as u64) as usize].1,
+                    1 => ix[rng.below(ix.len() as u64) as usize].1 + rng.range(1, 70000),
+                    2 => rng.below(total + 2),
+                    _ => rng.below(total + 140000),
+                }),
+                4 => Op::Fill,
+                5 => Op::Consume(rng.below(50) as usize),
+                6 => if kind == "ix" { Op::ExactStd(rng.below(40) as usize) } else { Op::Exact(rng.below(40) as usize) },
+                7 => Op::ReadAll(all_size(&l, rng.range(1, 5000) as usize)),
+                _ => Op::Read(gen_size(rng, &l, 7)),
+            });
+        }
+        w.push("hidx", vec![kind.into(), fmt_frames(&fs), fmt_index(&ix), fmt_ops(&ops)]);
+    }
+    // ---- seeks to arbitrary (hostile) virtual positions
+    let n_hs = if thorough { 4000 } else { 260 };
+    for i in 0..n_hs {
+        if i % 4 != 3 {
+            // (A) a well-formed small file, a valid history, then a seek anywhere
+            let mut fs = gen_layout(rng);
+            fs.retain(|f| f.len <= 600);
+            let l = assemble(&fs);
+            let nops = rng.below(5) as usize;
+            let ops = gen_ops(rng, "rd", &l, &l.full_index(), nops);
+            let (c, u) = if l.tbl.is_empty() {
+                (rng.below(40), rng.below(3) as u16)
+            } else {
+                let t = *rng.pick(&l.tbl);
+                let fr_len = l.tbl.iter().map(|x| x.0).find(|&x| x > t.0).unwrap_or(l.file_len) - t.0;
+                let c = match rng.below(10) {
+                    0 => t.0,
+                    1 => t.0 + *rng.pick(&[1u64, 2, 10, 16, 17, 18, 19, 23]),
+                    2 => t.0 + rng.below(fr_len),
+                    3 => t.0 + fr_len - *rng.pick(&[1u64, 4, 8, 9, 17, 18]).min(&fr_len),
+                    4 => l.file_len.saturating_sub(rng.range(1, 30)),
+                    5 => l.file_len + rng.below(30),
+                    6 => *rng.pick(&[(1u64 << 48) - 1, 1 << 47, 1 << 32, 65536]),
+                    7 => l.file_len,
+                    _ => rng.below(l.file_len + 1),
+                };
+                let u = match rng.below(6) {
+                    0 => 0,
+                    1 => t.2.min(65535) as u64,
+                    2 => (t.2 as u64 + 1).min(65535),
+                    3 => 65535,
+                    4 => rng.below(65536),
+                    _ => rng.below(t.2 as u64 + 2).min(65535),
+                };
+                (c, u as u16)
+            };
+            w.push("hseek", vec![fmt_frames(&fs), hex(&l.bytes), fmt_ops(&ops), format!("{c}:{u}")]);
+        } else {
+            // (B) arbitrary bytes, fresh reader: damaged frames, truncation, stray tails, a BGZF
+            //     file stored inside a frame (a mid-frame offset that parses)
+            let d1 = pattern(rng.range(1, 200) as usize, rng.below(251), rng.range(1, 250));
+            let d2 = pattern(rng.range(0, 80) as usize, rng.below(251), rng.range(1, 250));
+            let f1 = if rng.chance(1, 2) { writer_frame(&d1, rng.below(10) as u8) } else { hand_frame(&d1, rng.below(10) as u32) };
+            let f2 = hand_frame(&d2, rng.below(10) as u32);
+            let mut bytes = Vec::new();
+            let mut c = 0u64;
+            match rng.below(8) {
+                0 => {
+                    // nested: [frame(stored: f1 ++ f2)] ; target = where f1 / f2 starts inside
+                    let mut inner = f1.clone();
+                    inner.extend_from_slice(&f2);
+                    bytes = hand_frame(&inner, 0);
+                    bytes.extend_from_slice(&EOF_MARKER);
+                    c = 18 + 5 + if rng.chance(1, 2) { 0 } else { f1.len() as u64 };
+                }
+                k => {
+                    bytes.extend_from_slice(&f1);
+                    let at2 = bytes.len();
+                    bytes.extend_from_slice(&f2);
+                    if rng.chance(1, 2) {
+                        bytes.extend_from_slice(&EOF_MARKER);
+                    }
+                    let (start, flen) = if rng.chance(1, 2) { (0, f1.len()) } else { (at2, f2.len()) };
+                    c = start as u64;
+                    match k {
+                        1 => bytes[start + rng.below(16) as usize] ^= 1 << rng.below(8), // header
+                        2 => {
+                            // BSIZE: too small / too large / off by one
+                            let b = *rng.pick(&[0u16, 24, 25, (flen - 2) as u16, flen as u16, 65535]);
+                            bytes[start + 16..start + 18].copy_from_slice(&b.to_le_bytes());
+                        }
+                        3 => bytes[start + 18 + rng.below((flen - 26).max(1) as u64) as usize] ^= 1 << rng.below(8), // cdata
+                        4 => bytes[start + flen - 8 + rng.below(4) as usize] ^= 1 << rng.below(8), // crc
+                        5 => {
+                            // isize: other value, also > 65536
+                            let v = *rng.pick(&[0u32, 1, 65536, 65537, u32::MAX, d1.len() as u32 + 1]);
+                            bytes[start + flen - 4..start + flen].copy_from_slice(&v.to_le_bytes());
+                        }
+                        6 => {
+                            let cut = rng.range(1, 40).min(bytes.len() as u64 - 1) as usize;
+                            bytes.truncate(bytes.len() - cut);
+                        }
+                        _ => bytes.extend_from_slice(&pattern(rng.range(1, 30) as usize, 31, 108)), // stray tail
+                    }
+                    if rng.chance(1, 4) {
+                        c = rng.below(bytes.len() as u64 + 20);
+                    }
+                }
+            }
+            let u = *rng.pick(&[0u16, 1, 5, 65535]);
+            w.push("hseek", vec!["_".into(), hex(&bytes), "_".into(), format!("{c}:{u}")]);
+        }
+    }
+}
+
+/// an index that need not be sorted by uncompressed offset
+fn gen_hostile_index(rng: &mut Rng) -> Vec<(u64, u64)> {
+    let k = rng.range(1, 12) as usize;
+    let mut ix: Vec<(u64, u64)> = Vec::new();
+    let (mut c, mut u) = (0u64, 0u64);
+    for _ in 0..k {
+        c += rng.range(26, 70000);
+        u += *rng.pick(&[0u64, 0, 1, 7, 300, 65535, 65536]);
+        ix.push((c, u));
+    }
+    for _ in 0..rng.range(1, 4) {
+        let k = ix.len();
+        match rng.below(8) {
+            0 => ix.reverse(),
+            1 | 2 => {
+                let (a, b) = (rng.below(k as u64) as usize, rng.below(k as u64) as usize);
+                ix.swap(a, b);
+            }
+            3 => {
+                let e = ix[rng.below(k as u64) as usize];
+                ix.insert(rng.below(k as u64 + 1) as usize, e);
+            }
+            4 => {
+                let j = rng.below(k as u64) as usize;
+                ix[j].1 = *rng.pick(&[0u64, 1, u64::MAX, u64::MAX - 1, 1 << 63, 65536]);
+            }
+            5 => {
+                let j = rng.below(k as u64) as usize;
+                ix[j].0 = *rng.pick(&[0u64, (1 << 48) - 1, 1 << 48, u64::MAX]);
+            }
+            6 => ix.rotate_left(1),
+            _ => {
+                // fully random small values with repetitions
+                for e in ix.iter_mut() {
+                    e.1 = rng.below(6) * 100;
+                }
+            }
+        }
+    }
+    ix
 }
 
 fn main() {
